@@ -87,8 +87,8 @@ CLAIMS.update({
    ref="DESIGN.md section 4 C04"),
  "C12": dict(
    technique="polynomial identities on the per-face / per-node contributions (LF engine), structural matching of accumulations and running extrema, 3x3 index-layout interpretation of constructor/transpose/get_col",
-   text="Decides exact formula clauses: the volume integrand (and the signed-volume sibling in the orientation check) is the scalar triple product of the face's own nodes, volume = |sum|/6, inside-out cells are flipped through a reference; face area = |cross|/2 and normal = normalised cross product; centroid contribution = (x1+x2+x3)/3*area over used faces, divided by area_; area = sum of used faces' areas; the bounding box keeps per-axis running extrema over used nodes from +/-infinity and returns (min xyz, max xyz); the covariance entries accumulate (p_a-c_a)(p_b-c_b) for the matching axes into a symmetric matrix; the index conventions of the mat33 constructor, transpose and get_col compose so that the axis returned when eval[k] dominates is the solver's evec[k] in component order. Also: the signed volume that decides the global flip is summed only after the flood fill has made all windings consistent; volume / centroid / area / bounding box / axis selection are decided on the symbolic value of what is returned, independent of local names and statement forms. Also: the signed-volume sums range over every slot of face_lst_ (not the first get_nb_of_faces() slots). Also: the area sum ranges over the whole face list; the winding flood fill queues the neighbours across all three edges of the seed face and of every face it visits; the Householder prologue, each Givens step and each final reflection of the symmetric 3x3 eigen solver preserves the characteristic polynomial of the tridiagonal matrix (polynomial identity modulo c^2+s^2=1 and the half-angle relation, by Groebner-basis reduction).",
-   note="Trusted: the eigen solver's convention evec[k] <-> eval[k]. Frame independence, independence of the element numbering, that the flood fill reaches every face (connectivity), convergence and rounding of the eigen solver and its eigenvector updates are not decided; GetCosSin is assumed to return a unit vector parallel to its arguments.",
+   text="Decides exact formula clauses: the volume integrand (and the signed-volume sibling in the orientation check) is the scalar triple product of the face's own nodes, volume = |sum|/6, inside-out cells are flipped through a reference; face area = |cross|/2 and normal = normalised cross product; centroid contribution = (x1+x2+x3)/3*area over used faces, divided by area_; area = sum of used faces' areas; the bounding box keeps per-axis running extrema over used nodes from +/-infinity and returns (min xyz, max xyz); the covariance entries accumulate (p_a-c_a)(p_b-c_b) for the matching axes into a symmetric matrix; the index conventions of the mat33 constructor, transpose and get_col compose so that the axis returned when eval[k] dominates is the solver's evec[k] in component order. Also: the signed volume that decides the global flip is summed only after the flood fill has made all windings consistent; volume / centroid / area / bounding box / axis selection are decided on the symbolic value of what is returned, independent of local names and statement forms. Also: the signed-volume sums range over every slot of face_lst_ (not the first get_nb_of_faces() slots). Also: the area sum ranges over the whole face list; the winding flood fill queues the neighbours across all three edges of the seed face and of every face it visits; the Householder prologue, each Givens step and each final reflection of the symmetric 3x3 eigen solver preserves the characteristic polynomial of the tridiagonal matrix (polynomial identity modulo c^2+s^2=1 and the half-angle relation, by Groebner-basis reduction); the reflection applied to the eigenvector matrix (Update0-3, read from their bodies) is the one for which the assigned entries are G^T B G, and eigenvector k is handed over from the column that belongs to eigenvalue k.",
+   note="Trusted: the eigen solver's convention evec[k] <-> eval[k]. Frame independence, independence of the element numbering, that the flood fill reaches every face (connectivity), convergence and rounding of the eigen solver are not decided; GetCosSin is assumed to return a unit vector parallel to its arguments.",
    ref="DESIGN.md section 4 C12"),
 })
 
